@@ -222,6 +222,26 @@ def run(ctx):
                 ctx.spec_fail('recast(melt)|identity|named-variables', 'recast(melt(t, variables=...), variablefield={...: names}) does not reproduce t with the fields in the order named',
                               {'table': repr(T), 'key': repr(kf), 'variables': repr(order), 'got': got2, 'want': want2})
 
+    # ---- the pattern of capture / split / splitdown given as a compiled pattern (with its own flags) behaves like the same
+    # pattern and flags given separately
+    import re as _re
+    for ci in range(120 if ctx.thorough() else 30):
+        S = [['id', 's']] + [[i, rng.choice(['aXb', 'axb', 'a\nxb', 'AxB', 'ab', 'x'])] for i in range(rng.choice([1, 2, 4]))]
+        fl = rng.choice([_re.I, _re.I, _re.S, _re.I | _re.S, 0])
+        for name, with_obj, with_args in (
+                ('split', lambda: etl.split(S, 's', _re.compile('x', fl), ['l', 'r']), lambda: etl.split(S, 's', 'x', ['l', 'r'], flags=fl)),
+                ('splitdown', lambda: etl.splitdown(S, 's', _re.compile('x', fl)), lambda: etl.splitdown(S, 's', 'x', flags=fl)),
+                ('capture', lambda: etl.capture(S, 's', _re.compile('(a)(.)', fl), ['p', 'q'], fill=['-', '-']),
+                 lambda: etl.capture(S, 's', '(a)(.)', ['p', 'q'], fill=['-', '-'], flags=fl)),
+                ('search', lambda: etl.search(S, 's', _re.compile('x', fl)), lambda: etl.search(S, 's', 'x', flags=fl)),
+                ('sub', lambda: etl.sub(S, 's', _re.compile('x', fl), '_'), lambda: etl.sub(S, 's', 'x', '_', flags=fl))):
+            a, b = util.run_show(with_obj), util.run_show(with_args)
+            ctx.case(('compiled-pattern', name, repr(S), int(fl)))
+            ctx.count('op:compiled-pattern')
+            if a != b:
+                ctx.spec_fail('%s|compiled-pattern' % name, '%s with a compiled pattern carrying flags differs from the same pattern with flags=' % name,
+                              {'table': repr(S), 'flags': int(fl), 'compiled': a, 'pattern+flags': b})
+
 
 def replay(d):
     print('replay case:', d.get('case'))
